@@ -87,7 +87,7 @@ package plugins
 //@   modifies lrw.wroteHeader, lrw.statusCode, http.ResponseWriter.committed, http.ResponseWriter.status, http.ResponseWriter.ceAtCommit, http.ResponseWriter.clAtCommit
 
 //@ func (*limitedResponseWriter).checkLimit
-//@   props C14
+//@   props C14 C16
 //@   requires inv(lrw)
 //@   ensures inv: inv(lrw)
 //@   ensures within: old(lrw.written) + len(b) <= lrw.limit ==> result == nil && lrw.limitReached == old(lrw.limitReached) && lrw.wroteHeader == old(lrw.wroteHeader)
